@@ -71,10 +71,10 @@ class C13(Check):
                 "StabilizerStateChForm, CliffordTableau, the gate dispatch / decomposition fall-backs",
         "stub": "the pseudo-random generator (ScriptedPRNG); QRef is the oracle",
     }
-    tiers = {"quick": {"runs": 1400, "wall": 85}, "thorough": {"runs": 600000, "wall": 1200}}
+    tiers = {"quick": {"runs": 1300, "wall": 85}, "thorough": {"runs": 600000, "wall": 1200}}
     per_run_timeout = 240
     expected_probes = ["sut:ch-steps", "sut:ch-act_on", "sut:tableau-act_on", "sut:simulate", "sut:run",
-                       "sut:stab-sampler", "meas:random", "meas:deterministic", "gate:global-shift", "gate:swap",
+                       "sut:stab-sampler", "sut:clifford-state", "gen:deep", "meas:random", "meas:deterministic", "gate:global-shift", "gate:swap",
                        "gate:fallback-1q", "gate:clifford-gate", "gate:controlled-pauli", "gate:mixture",
                        "gate:global-phase", "ch:multi-coin-measure", "gate:iswap"]
 
@@ -88,11 +88,15 @@ class C13(Check):
         self._cliffords_1q = list(cirq.SingleQubitCliffordGate.all_single_qubit_cliffords)
 
     # -- generator -----------------------------------------------------------------------------------
-    def _gen(self, tape, ctx, allow_mixture: bool):
+    def _gen(self, tape, ctx, allow_mixture: bool, deep: bool = False):
         cirq = self.cirq
         n = 1 + tape.weighted([2, 4, 4, 3, 2, 1], "n-qubits")
         qs = cirq.LineQubit.range(n)
-        n_ops = 2 + tape.draw(19, "n-ops")
+        # the tableau state is cheap to drive: it gets longer, more entangling histories (a deterministic
+        # measurement that must combine three or more generator rows needs depth)
+        n_ops = 2 + tape.draw(19, "n-ops") + (tape.draw(41, "extra-ops") if deep else 0)
+        if deep:
+            ctx.probe("gen:deep")
         c = cirq.Circuit()
         keys = {}
         bits = 0.0
@@ -143,7 +147,7 @@ class C13(Check):
                 key = ["a", "b", "c"][tape.draw(3, "key")]
                 if key in keys and keys[key] != w:
                     continue
-                if bits + w > 6:
+                if bits + w > (4 if deep else 6):
                     continue
                 bits += w
                 keys[key] = w
@@ -176,7 +180,7 @@ class C13(Check):
             elif k == 6:
                 p = [0.25, 0.5, 0.125][tape.draw(3, "mix-p")]
                 op = [cirq.bit_flip(p), cirq.phase_flip(p), cirq.depolarize(p)][tape.draw(3, "mix")].on(q)
-                if bits + 2 > 6:
+                if bits + 2 > (4 if deep else 6):
                     continue
                 bits += 2 if "depolarize" in repr(op) else 1
                 feats.add("mixture")
@@ -236,10 +240,13 @@ class C13(Check):
         cirq = self.cirq
         sp = self.sp
         ctx.workload = "stabilizer"
-        sut = ["ch-steps", "ch-act_on", "tableau-act_on", "simulate", "run", "stab-sampler"][
-            tape.weighted([4, 3, 4, 2, 2, 1], "sut")]
+        sut = ["ch-steps", "ch-act_on", "tableau-act_on", "simulate", "run", "stab-sampler", "clifford-state"][
+            tape.weighted([4, 3, 5, 2, 2, 2, 1], "sut")]
+        if sut == "clifford-state":
+            return self._clifford_state(tape, ctx)
         allow_mixture = sut in ("simulate", "run", "ch-act_on", "tableau-act_on") and tape.chance(1, 3, "mixtures?")
-        circuit, qs, bits, feats = self._gen(tape, ctx, allow_mixture)
+        circuit, qs, bits, feats = self._gen(tape, ctx, allow_mixture,
+                                             deep=(sut in ("tableau-act_on", "stab-sampler") and tape.chance(2, 3, "deep?")))
         if sut in ("run", "stab-sampler") and not circuit.has_measurements():
             circuit.append(cirq.measure(*qs[:2], key="z"))
             bits += min(2, len(qs))
@@ -269,6 +276,80 @@ class C13(Check):
         ctx.sample = {"circuit": diagram if len(diagram) <= 24 and max(map(len, diagram), default=0) < 200
                       else [repr(op)[:100] for op in circuit.all_operations()][:24],
                       "system_under_test": sut, "leaves_explored": n_leaves, "features": sorted(feats)}
+
+    def _clifford_state(self, tape, ctx) -> None:
+        """cirq.CliffordState: apply_unitary / apply_measurement, incl. the non-collapsing form
+        (collapse_state_vector=False must leave the state vector untouched and still report
+        Born-distributed results)."""
+        cirq = self.cirq
+        sp = self.sp
+        ctx.probe("sut:clifford-state")
+        n = 1 + tape.draw(3, "n-qubits")
+        qs = cirq.LineQubit.range(n)
+        prep = []
+        for _ in range(1 + tape.draw(6, "prep-ops")):
+            k = tape.draw(4, "prep-kind")
+            q = qs[tape.draw(n, "q")]
+            if k == 0:
+                prep.append(cirq.H(q))
+            elif k == 1:
+                prep.append(cirq.S(q))
+            elif k == 2 and n > 1:
+                a, b = self._two(tape, n)
+                prep.append(cirq.CNOT(qs[a], qs[b]))
+            else:
+                prep.append(cirq.X(q))
+        mq = [qs[i] for i in self._distinct(tape, n, 1 + tape.draw(min(2, n), "m-width"))]
+        n_noncollapsing = 1 + tape.draw(2, "n-noncollapsing")
+        qref = self.qref
+        ref = qref.QRef(qs)
+        branches = ref.run(cirq.Circuit(prep + [cirq.I(q) for q in qs]), 0)
+        psi_ref = branches[0].psi
+        m_branches = ref.step(branches, cirq.measure(*mq, key="m"))
+        p_ref = {}
+        for b in m_branches:
+            p_ref[b.records["m"][-1]] = p_ref.get(b.records["m"][-1], 0.0) + b.prob
+
+        def leaf(prng):
+            st = cirq.CliffordState(qubit_map={q: i for i, q in enumerate(qs)})
+            for op in prep:
+                st.apply_unitary(op)
+            before = np.asarray(st.state_vector(), dtype=np.complex128)
+            outs = []
+            for _ in range(n_noncollapsing):
+                meas = {}
+                st.apply_measurement(cirq.measure(*mq, key="m"), meas, prng, collapse_state_vector=False)
+                outs.append(tuple(int(x) for x in meas["m"]))
+                after = np.asarray(st.state_vector(), dtype=np.complex128)
+                if np.max(np.abs(after - before)) > 1e-7:
+                    raise Violation(f"{P}-SAMPLE-MUTATES",
+                                    f"[clifford-state] apply_measurement(collapse_state_vector=False) changed the "
+                                    f"state\n before={np.round(before, 4)}\n after={np.round(after, 4)}\n"
+                                    f"prep={prep} measure={mq}")
+            return before, outs
+
+        leaves = sp.explore(leaf, 300)
+        w = {}
+        for wt, (before, outs), _t in leaves:
+            if np.max(np.abs(before - psi_ref)) > 1e-6:
+                raise Violation(f"{P}-CH-STATE", f"[clifford-state] state after apply_unitary sequence differs from the "
+                                                 f"reference (incl. phase)\nprep={prep}")
+            w[tuple(outs)] = w.get(tuple(outs), 0.0) + wt
+        for outs, wt in w.items():
+            expect = 1.0
+            for o in outs:
+                expect *= p_ref.get(o, 0.0)
+            if abs(wt - expect) > 1e-6:
+                raise Violation(f"{P}-PROB", f"[clifford-state] non-collapsing measurement results {outs} have probability "
+                                             f"{wt:.6f}, independent Born-rule samples would have {expect:.6f}\nprep={prep} "
+                                             f"measure={mq}")
+        ctx.decide("case", "clifford-state", repr(prep), repr(mq), n_noncollapsing, len(leaves))
+        ctx.nontrivial = len(leaves) >= 2
+        ctx.steps += len(leaves)
+        ctx.state(("clifford-state", n, len(mq), n_noncollapsing))
+        ctx.sample = {"system_under_test": "cirq.CliffordState", "prep": [str(o) for o in prep],
+                      "measured": [str(q) for q in mq], "non_collapsing_measurements": n_noncollapsing,
+                      "leaves_explored": len(leaves)}
 
     def _stepwise(self, tape, ctx, circuit, qs, sut: str, has_mixture: bool) -> int:
         cirq = self.cirq
